@@ -164,6 +164,7 @@ def facts(r):
             f["bodyend"] = (idx, e[3])
         elif k == "left":
             f["left"] = (idx, e[3])
+            f["same"] = e[4]
     return f
 
 
@@ -265,6 +266,10 @@ def monitor(case: str, out: str) -> list[str]:
         if f["left"][1] == "ok":
             if any(v != "ok" for v in f["dexed"].values()):
                 fails.add("disposables.cleanup-error-vanished")
+        elif f["bodyend"] and f["bodyend"][1] != "ok" and f.get("same") == "1" \
+                and any(v not in ("ok", "Cancelled") for v in f["dexed"].values()):
+            # the body failed AND a cleanup raised: what reaches the caller must not be just the body's own exception
+            fails.add("disposables.cleanup-error-vanished")
             if any(v != "ok" for v in f["dened"].values()):
                 fails.add("disposables.enter-error-vanished")
     return sorted(fails)
